@@ -222,6 +222,24 @@ def wl_pol(ctx, idx, rng):
     ctx.describe_case(desc)
     ctx.sample(desc)
     o = "pol_sequence"
+    if rng.random() < 0.3:
+        # history: an assignment of a basis name that does not exist is refused and the signal keeps the basis it has
+        bad = gen.pick(rng, ["Circular", "CIRC", "lin", None, "", 1, b"linear"])
+        ctx.count("history[refused_pol_type]")
+        try:
+            sig.pol_type = bad
+        except ValueError:
+            pass
+        except Exception as e:
+            ctx.violation(o, f"pol_type = {bad!r} raised {type(e).__name__}, expected ValueError", None, {"what": "setter_exc_type"})
+        else:
+            ctx.violation(o, f"pol_type = {bad!r} was accepted", None, {"what": "setter_accepted"})
+        with probes.quiet():
+            now = sig.pol_type
+        if now != pol:
+            ctx.violation(o, f"a refused assignment pol_type = {bad!r} left the {pol} signal labelled {now!r}: later conversions use the wrong basis",
+                          None, {"what": "refused_assignment_changed_basis"})
+            return
     lin, e1 = ctx.call(o, sig.to_linear)
     cir, e2 = ctx.call(o, sig.to_circular)
     if e1 is not None or e2 is not None:
